@@ -107,8 +107,18 @@ def fr(R):
     return (c.x - s.w / 2, c.y - s.h / 2, c.x + s.w / 2, c.y + s.h / 2)
 
 
+def refinable_of(d, res=None, case=None, attrs=None):
+    """the refinable regions as the API reports them (floorplanning_rectangles), cross-checked with the region lists"""
+    api = list(d.floorplanning_rectangles()[0])
+    lists = d.specialized_regions + d.ground_regions
+    if res is not None and sorted(map(id, api)) != sorted(map(id, lists)):
+        res.violation('observers-disagree', case, attrs, f'{len(lists)} regions (specialized + ground lists)',
+                      f'floorplanning_rectangles() reports {len(api)}')
+    return api
+
+
 def snapshot(d):
-    return dict(refinable=[(fr(r), r.region) for r in d.specialized_regions + d.ground_regions],
+    return dict(refinable=[(fr(r), r.region) for r in refinable_of(d)],
                 blockages=[(id(r), r.center.x, r.center.y, r.shape.w, r.shape.h, r.region) for r in d.blockages],
                 fixed=[(id(r), r.center.x, r.center.y, r.shape.w, r.shape.h, r.region) for r in d.fixed_regions],
                 keep=list(d.blockages) + list(d.fixed_regions))
@@ -116,7 +126,10 @@ def snapshot(d):
 
 def post_conditions(case, res, attrs, before, d, scale, count_min=None, count_eq=None, rmax=None):
     tol = 1e-9 * scale
-    new = [(fr(r), r.region, r) for r in d.specialized_regions + d.ground_regions]
+    new = [(fr(r), r.region, r) for r in refinable_of(d, res, case, attrs)]
+    fixed_api = list(d.floorplanning_rectangles()[1])
+    if sorted(map(id, fixed_api)) != sorted(map(id, d.fixed_regions)):
+        res.violation('observers-disagree', case, attrs, 'fixed_regions', 'floorplanning_rectangles()[1] differs')
 
     def bad(clause, exp, obs):
         res.violation(clause, case, attrs, exp, obs)
